@@ -182,6 +182,13 @@ func workerReplay(t *testing.T, fam *Family, out string) {
 	Beat()
 	FullLog = os.Getenv("VSIM_FULLLOG") != ""
 	res := fam.Run(t, sc)
+	if res != nil && res.StepBudgetHit && StepScale == 1 {
+		// out of steps, not out of simulated time: a tool budget. Believe in a livelock only if
+		// eight times the budget is not enough either.
+		StepScale = 8
+		res = fam.Run(t, sc)
+		StepScale = 1
+	}
 	writeJSON(out, res)
 	if res.Violation != nil {
 		os.Exit(10)
@@ -241,6 +248,13 @@ func workerBatch(t *testing.T, fam *Family, out string) {
 		}
 		Beat()
 		res := fam.Run(t, sc)
+		if res != nil && res.StepBudgetHit && StepScale == 1 {
+			// out of steps, not out of simulated time: a tool budget. Believe in a livelock only if
+			// eight times the budget is not enough either.
+			StepScale = 8
+			res = fam.Run(t, sc)
+			StepScale = 1
+		}
 		sum.Runs++
 		for k, v := range res.Faults {
 			sum.Faults[k] += v
